@@ -515,6 +515,12 @@ func (b *Buffer) cleanup() {
 			go func() {
 				defer timer.Stop() // just in case, ensure the timer gets stopped
 				defer func() {
+					// the cond's locker must be held while broadcasting, otherwise the broadcast may be lost, if it
+					// lands between the cleanup goroutine evaluating its predicate and calling cond.Wait
+					// NOTE: lock order is b.mutex then mutex, consistent with the cleanup closure, above
+					b.mutex.Lock()
+					defer b.mutex.Unlock()
+
 					// lock on the mutex, so that the timer removal and broadcast checking / performing is synced
 					mutex.Lock()
 					defer mutex.Unlock()
